@@ -177,8 +177,8 @@ PROPS = {
         'assumptions': [], 'trusted': ['/verif/gen translators report what the source says'],
     },
     'C20': {
-        'suites': [('w_c20', 200, 6000)],
-        'rule': 'w_c20: wire workloads of up to three client ids (v3.1/3.1.1/5; all packet types incl. AUTH, QoS 0-2, drops of every kind: queue full, expired, in-flight expired, exceeds maximum packet size; reconnects, take-overs, terminate, session expiry) with an (inspect) after every step; '
+        'suites': [('w_c20', 200, 6000), ('c20r', 30, 600)],
+        'rule': 'c20r: a session with client id x1 (3.1 / 3.1.1 / 5) and 1-3 refused v5 CONNECTs (Authentication Method, no enhanced authentication configured) that claim the same client id, before the session connects or while it is online; the per-client counters of x1 must show exactly its own CONNECT and CONNACK. w_c20: wire workloads of up to three client ids (v3.1/3.1.1/5; all packet types incl. AUTH, QoS 0-2, drops of every kind: queue full, expired, in-flight expired, exceeds maximum packet size; reconnects, take-overs, terminate, session expiry) with an (inspect) after every step; '
                 'the statistics returned by StatsManager are compared field by field with (a) the extracted Coq model of stats.go driven by the event log and (b) the ground truth computed from the packet log, queue contents and session tables',
         'assumptions': ['PINGREQ/PINGRESP counters are removed by the runner (its barrier pings)', 'drop ground truth is the OnMsgDropped hook log',
                         'steps where the queue prediction is contradicted by the packets (silent eviction of an expired PUBREL entry) are outside the family'],
